@@ -377,6 +377,56 @@ class Check:
                 self.log("driver not available: correspondence not run (model does not build)")
         return stats
 
+    def race(self, component, seed=None, timeout=None):
+        """Build the harness with the race detector, run the component, turn every report into a violation."""
+        ok, msg = build_go(race=True)
+        if not ok:
+            self.log("race build failed: " + msg[-500:])
+            self.cov.setdefault("extra", {})["race_detector"] = "build failed"
+            return None
+        wd = os.path.join(self.workdir, component + "-race")
+        seed = self.seed if seed is None else seed
+        if timeout is None:
+            timeout = 900 if self.tier == "quick" else 7200
+        shutil.rmtree(wd, ignore_errors=True)
+        os.makedirs(wd, exist_ok=True)
+        env = goenv()
+        env["GORACE"] = f"log_path={wd}/race halt_on_error=0"
+        env.setdefault("GOMEMLIMIT", "8GiB")
+        try:
+            rc, out = run([HARNESS + "-race", "-dir", os.path.join(wd, "out"), "-seed", str(seed), "-tier", self.tier, component], env=env, timeout=timeout)
+        except subprocess.TimeoutExpired:
+            rc, out = -9, "timeout"
+        reports = []
+        for fn in sorted(os.listdir(wd)):
+            if fn.startswith("race."):
+                txt = open(os.path.join(wd, fn), errors="replace").read()
+                reports += [b for b in txt.split("==================") if "DATA RACE" in b]
+        seen = set()
+        for b in reports:
+            frames = [l.strip() for l in b.splitlines() if l.strip().startswith("github.com/IBM/TSS")]
+            key = " <-> ".join(frames[:2])
+            if key in seen:
+                continue
+            seen.add(key)
+            self.monitor_violation("data race reported by the race detector: " + key, b.strip()[:6000], component, seed)
+        self.cov.setdefault("extra", {})["race_detector"] = f"{len(reports)} reports, {len(seen)} distinct, exit {rc}"
+        if rc != 0 and not reports:
+            rp = write_replay(self.pid, f"race_run_{component}_{seed}.txt", f"race-instrumented harness exited {rc}\n{out[-4000:]}")
+            self.violations.append((f"the race-instrumented run of component {component} did not complete (exit {rc})", rp, True))
+        try:
+            st = json.load(open(os.path.join(wd, "out", "stats.json")))
+            self.cov["evaluations"] += st["ops"]
+            self.cov["distinct_nontrivial"] += st["distinct_nontrivial"]
+            for k, v in st["histogram"].items():
+                self.cov["histogram"][f"{component}-race:{k}"] = v
+            for mv in (st.get("monitor_violations") or []):
+                if mv["property"] == self.pid:
+                    self.monitor_violation(mv["what"], mv["replay"], component, seed)
+        except Exception:
+            pass
+        return len(reports)
+
     def monitor_violation(self, what, replay, component="", seed=None):
         for kf in known_findings():
             if kf.get("property") == self.pid and kf.get("status", "open") == "open" and re.search(kf["match"], what + " " + replay):
